@@ -8,7 +8,12 @@ from scipy.special import ellipeinc, ellipkinc
 
 from .base_classes import Shape3D
 from .sphere import Sphere
-from .utils import _hoomd_dict_mapping, _map_dict_keys, translate_inertia_tensor
+from .utils import (
+    _hoomd_dict_mapping,
+    _map_dict_keys,
+    _own_scalar,
+    translate_inertia_tensor,
+)
 
 
 class Ellipsoid(Shape3D):
@@ -81,7 +86,7 @@ class Ellipsoid(Shape3D):
     @a.setter
     def a(self, value):
         if value > 0:
-            self._a = value
+            self._a = _own_scalar(value)
         else:
             raise ValueError("a must be greater than zero.")
 
@@ -93,7 +98,7 @@ class Ellipsoid(Shape3D):
     @b.setter
     def b(self, value):
         if value > 0:
-            self._b = value
+            self._b = _own_scalar(value)
         else:
             raise ValueError("b must be greater than zero.")
 
@@ -105,7 +110,7 @@ class Ellipsoid(Shape3D):
     @c.setter
     def c(self, value):
         if value > 0:
-            self._c = value
+            self._c = _own_scalar(value)
         else:
             raise ValueError("c must be greater than zero.")
 
